@@ -3,6 +3,7 @@ import GscribModel.Props.C01
 import GscribModel.Props.C02
 import GscribModel.Props.C07
 import GscribModel.Props.C06
+import GscribModel.Props.C03
 /-! # C01 and C02 for the translated source
 
 `MotionTie_run` (every history: running the translated source of the builder's commands is running the model) composed with the
@@ -251,3 +252,48 @@ theorem SourceTie_C06 (b : B) (reset : Bool) (h : Rat) :
     cases reset <;> rfl
   · have := congrArg BSt.state ag.2.1
     exact this.symm
+
+/-! ## C03 (F and S words) read off the translated source -/
+namespace GscribModel.MotionTie
+def motionT (cs : List String) : Bool := cs.contains "G0" || cs.contains "G1"
+def probeT (cs : List String) : Bool :=
+  cs.contains "G38.2" || cs.contains "G38.3" || cs.contains "G38.4" || cs.contains "G38.5"
+def toolStartT (cs : List String) : Bool := cs.any fun t => t == "M03" || t == "M04"
+
+/-- the feed-rate and tool-power clauses of C03's `WordsOk`, for a statement as the ties compare statements (instruction texts,
+    axis words, other words): an F word on a motion, probe or bare statement is inside the feed-rate range, an S word on a
+    motion, probe, tool-start or bare statement inside the tool-power range -/
+structure LineOk (b : B) (l : Line) : Prop where
+  feed : ∀ f, lookupQ l.2.2 "F" = some f → (motionT l.1 || probeT l.1 || l.1.isEmpty) = true → b.okFeed f = true
+  power : ∀ v, lookupQ l.2.2 "S" = some v → (motionT l.1 || probeT l.1 || toolStartT l.1 || l.1.isEmpty) = true → b.okPower v = true
+
+theorem motionT_view (s : Stmt) : motionT (s.codes.map Code.text) = isMotion s := by
+  simp only [motionT, isMotion, contains_text _ _ text_G0, contains_text _ _ text_G1, Code.text]
+theorem probeT_view (s : Stmt) : probeT (s.codes.map Code.text) = isProbe s := by
+  simp only [probeT, isProbe, contains_text _ _ text_G382, contains_text _ _ text_G383, contains_text _ _ text_G384,
+    contains_text _ _ text_G385, Code.text]
+theorem toolStartT_view (s : Stmt) : toolStartT (s.codes.map Code.text) = toolStart s := by
+  simp only [toolStartT, toolStart, List.any_map]; congr 1; funext c; cases c <;> decide
+
+theorem lineOk_view (b : B) (s : Stmt) (h : WordsOk b s) : LineOk b (view s) := by
+  refine ⟨?_, ?_⟩
+  · intro f hf hc
+    apply h.feed f hf
+    simpa only [view, motionT_view, probeT_view, List.isEmpty_map] using hc
+  · intro v hv hc
+    apply h.power v hv
+    simpa only [view, motionT_view, probeT_view, toolStartT_view, List.isEmpty_map] using hc
+end GscribModel.MotionTie
+
+open GscribModel.MotionTie in
+/-- **C03 (F and S words) for the translated source**: whatever the builder state and the bounds table, every statement a translated
+    command writes carries an F word inside the feed-rate range and an S word inside the tool-power range wherever the controller
+    reads them (motion, probe, tool-start and bare-word statements). -/
+theorem SourceTie_C03 (b : B) (op : Op) (hok : OpOk b op) :
+    ∀ l ∈ (srcStep (absB b) (b.ctx.map dmOf) op).1.1.out.map conv, LineOk b l := by
+  intro l hl
+  obtain ⟨⟨_, _, h3, _⟩, _⟩ := MotionTie_step b op hok
+  have h3' : (step b op).stmts.map view = (srcStep (absB b) (b.ctx.map dmOf) op).1.1.out.map conv := h3
+  rw [← h3'] at hl
+  obtain ⟨s, hs, rfl⟩ := List.mem_map.mp hl
+  exact lineOk_view b s (C03_words b op s hs)
